@@ -532,6 +532,8 @@ class QvmCpu:
             msg = kwargs.get('msg')
             msg = msg or 'Cannot RESUME.'
             print(msg)
+        elif code == TrapCode.RETURN_WITHOUT_GOSUB:
+            print('RETURN without GOSUB')
         else:
             assert False
 
@@ -964,6 +966,11 @@ class QvmCpu:
         self.push(a.type, result)
 
     def _exec_ijmp(self):
+        frame = self.cur_frame
+        if frame is not None and len(self.stack) - 1 <= frame.stack_base:
+            # RETURN without GOSUB: the only address left is the
+            # routine's own return address
+            self.trap(TrapCode.RETURN_WITHOUT_GOSUB)
         target = self.pop(CellType.LONG)
         self.pc = target
 
